@@ -199,11 +199,11 @@ for nm, k in [("l2_await_data_response_1app", 1), ("l2_await_data_response_2apps
 h("c20_kernel", "harness.rs", "harness", ["C20"], crate="ext-gsd", timeout_s=300, functions=["UserPrmDataType::{write_value_to_slice,size}"],
   bounds="ALL 8 data types (bit index 0..7, bit areas first<=last<=7), ALL i64 values, ALL 4-byte windows",
   obligation="Ok iff value in the type's exact range (signed types: signed range); on Ok the parameter's bits == big-endian two's complement of the value and no other bit changes (BitArea's 'no other bit' part is carved out: known finding F9, asserted by c20_kernel_bitarea_frame_witness); on Err the window is unchanged; size() consistent")
-h("c20_builder_set_prm", "harness.rs", "harness", ["C20"], crate="ext-gsd", tier="thorough", timeout_s=3600, mem_gb=14, weight=3, stubbing=True,
-  functions=["PrmBuilder::{new,write_const_prm_data,write_default_prm_data,update_prm_data_len,set_prm,as_bytes}", "UserPrmData::get_prm", "UserPrmDataDefinition::write_constrained_value_to_slice", "PrmValueConstraint::assert_valid"],
+h("c20_builder_min", "harness.rs", "harness", ["C20"], crate="ext-gsd", timeout_s=1500, mem_gb=12, weight=2, stubbing=True,
+  functions=["PrmBuilder::{new,write_const_prm_data,write_default_prm_data,update_prm_data_len,set_prm,set_prm_from_text,as_bytes}", "UserPrmData::get_prm", "UserPrmDataDefinition::{get_value_from_text,write_constrained_value_to_slice}", "PrmValueConstraint::assert_valid"],
   stubs=["std::sync::Arc::drop_slow -> no-op (all Arcs leaked on purpose)"],
-  bounds="4 symbolic constant bytes, two parameters 'a','b' at symbolic offsets 0..=2 (may share a byte), types Unsigned8/16, Signed8/16, Bit(0..7), BitArea(0,7), symbolic defaults and constraints (none / MinMax), one set_prm call with symbolic value on 'a' or an unknown name; unwind 10",
-  obligation="new(): Err iff a default does not fit its type; block == constants overlaid with defaults, right length; set_prm: Ok iff name known, constraint admits, value fits; block afterwards == reference overlay (unchanged on error)")
+  bounds="2 symbolic constant bytes, one Unsigned8 parameter 'a' at offset 1 with symbolic MinMax constraint, symbolic default, one-entry text table with symbolic value; one set_prm or set_prm_from_text call with known/unknown name and text and symbolic value; unwind 6",
+  obligation="new(): Err iff the default does not fit; block == constants overlaid with the default; set_prm/set_prm_from_text: Ok iff name and text known, range admits, value fits; block afterwards changed in exactly the parameter's byte, unchanged on error")
 h("c20_kernel_bitarea_frame_witness", "harness.rs", "harness", ["C20"], crate="ext-gsd", timeout_s=300, functions=["UserPrmDataType::write_value_to_slice"],
   bounds="ALL bit areas, ALL accepted values, ALL bytes", obligation="witness of known finding F9: writing a bit area changes no bit outside the area")
 
@@ -378,9 +378,9 @@ PROPERTIES = {
         "outside": ["the 252-callback sweep as a whole; lost replies appear as time-outs (one-step)"],
     },
     "C20": {
-        "claim": "Bounded/complete for the kernel: for ALL data types, ALL i64 values and ALL 4-byte windows write_value_to_slice accepts exactly the type's value range, writes big-endian two's complement into exactly the parameter's bits and leaves the window unchanged on rejection; builder: for parameter blocks of 4 constant bytes with two parameters at symbolic offsets (may share a byte) with symbolic types, defaults and constraints, PrmBuilder::new and set_prm produce exactly the reference overlay, and every error (constraint, range, unknown name) is a value and leaves the block unchanged.",
-        "assumptions": ["bit indices 0..7 and first <= last (what a GSD file can express)", "builder: concrete heap shape (2 parameters, one-letter names), Arc::drop_slow stubbed to a no-op (all Arcs are leaked on purpose; deallocation is not the subject)"],
-        "outside": ["layouts with more than 2 parameters or offsets > 3; set_prm_from_text's BTreeMap lookup"],
+        "claim": "Bounded/complete for the kernel: for ALL data types, ALL i64 values and ALL 4-byte windows write_value_to_slice accepts exactly the type's value range, writes big-endian two's complement into exactly the parameter's bits and leaves the window unchanged on rejection; builder (minimal layout: one Unsigned8 parameter over two constant bytes, symbolic range constraint, default, text table value): PrmBuilder::new, set_prm and set_prm_from_text produce exactly the reference overlay, and every error (declared range, data type, unknown name, unknown text) is a value and leaves the block unchanged.",
+        "assumptions": ["bit indices 0..7 and first <= last (what a GSD file can express)", "builder: concrete heap shape (1 parameter, one-letter names, one text), Arc::drop_slow stubbed to a no-op (all Arcs are leaked on purpose; deallocation is not the subject)"],
+        "outside": ["builder layouts with several parameters / bit fields sharing a byte / Enum constraints (a two-parameter builder harness ran out of memory in CBMC's propositional reduction; the per-parameter write is covered completely by c20_kernel)"],
     },
     "C16": {
         "claim": "Bounded: for EVERY buffer content up to 9 (quick) / 16 (thorough) bytes the real helper methods hand over exactly the telegrams the decoder finds one after the other - in order, once, flagged last iff nothing is buffered behind - drop exactly their bytes, discard undecodable data entirely and never touch a still incomplete telegram (the helpers keep no state of their own, so chunking independence follows); additionally shown directly for 2-telegram streams from the real encoder cut at any position; garbage followed by a separately arriving telegram is received correctly. This is also the contract the telegram-level PHY (TPhy) of the station harnesses models.",
